@@ -555,6 +555,161 @@ theorem openai_stream_failure_swallowed (parse : Bytes → List Call) (tools usa
       rw [msgsOf_chan, filter_done_nonfinal _ _ (genCallback_nonfinal raw pl cs [] hnd)]
       rfl
 
+/-! ## The repaired variants (proposed fixes) restore the property in the model -/
+
+theorem oaChatStream_single_append (usage : Bool) (x : ChatMsg) (rest : List (Item ChatMsg)) (sent : Bool) :
+    oaChatStream usage (Item.msg x :: rest) sent
+      = oaChatStream usage [Item.msg x] sent ++ oaChatStream usage rest (sent || !x.calls.isEmpty) := by
+  simp [oaChatStream, asChat]
+
+theorem oaChatStreamFixed_run (usage : Bool) (pre : List ChatMsg) (m : Bytes) (hm : m.isEmpty = false) (sent : Bool) :
+    oaChatStreamFixed usage (pre.map Item.msg ++ [Item.err m]) sent
+      = oaChatStream usage (pre.map Item.msg) sent ++ [OaEv.error m] := by
+  induction pre generalizing sent with
+  | nil => simp [oaChatStreamFixed, oaChatStream, hm]
+  | cons x xs ih =>
+    simp only [List.map_cons, List.cons_append, oaChatStreamFixed, ih]
+    rw [oaChatStream_single_append usage x (xs.map Item.msg) sent, List.append_assoc]
+
+theorem oaCmplStreamFixed_run (usage : Bool) (pre : List GenMsg) (m : Bytes) (hm : m.isEmpty = false) :
+    oaCmplStreamFixed usage (pre.map Item.msg ++ [Item.err m])
+      = oaCmplStream usage (pre.map Item.msg) ++ [OaEv.error m] := by
+  induction pre with
+  | nil => simp [oaCmplStreamFixed, oaCmplStream, hm]
+  | cons x xs ih =>
+    simp only [List.map_cons, List.cons_append, oaCmplStreamFixed, ih]
+    simp [oaCmplStream, asGen]
+
+theorem filter_isError_nil (evs : List OaEv) (h : ∀ ev ∈ evs, ev.isError = false) : evs.filter OaEv.isError = [] := by
+  apply List.filter_eq_nil_iff.mpr
+  intro x hx; simp [h x hx]
+
+/-- the stream's last event is the error object for `m`, it is the only error object, and there is no `[DONE]` -/
+def ReportsOnce (m : Bytes) (evs : List OaEv) : Prop :=
+  evs.getLast? = some (OaEv.error m) ∧ (evs.filter OaEv.isError).length = 1 ∧ oaDones evs = 0
+
+/-- **F17c repaired (proposed_fixes/C17-F17c.patch)**: with the patched writers a failing run ends, on
+    the OpenAI streaming endpoints, with exactly one error event carrying the runner's message, as
+    the last event, and no `[DONE]`. -/
+theorem openai_stream_failure_reported_fixed (parse : Bytes → List Call) (tools usage raw : Bool) (pl : Nat)
+    (cs : List Chunk) (m : Bytes) (h : RunnerOK cs (.err m)) (hm : m.isEmpty = false) :
+    ReportsOnce m (oaChatStreamV true usage (chatStream parse tools cs (.err m)))
+    ∧ ReportsOnce m (oaCmplStreamV true usage (genStream raw pl cs (.err m))) := by
+  cases h with
+  | fail cs m hnd =>
+    constructor
+    · simp only [ReportsOnce, oaChatStreamV, ↓reduceIte, chatStream, chatChan, endItems]
+      rw [oaChatStreamFixed_run usage _ m hm false]
+      refine ⟨by simp, ?_, ?_⟩
+      · rw [List.filter_append, filter_isError_nil _ (oaChatStream_no_error usage _ false)]
+        rfl
+      · rw [oaDones_append, (openai_chat_stream_equiv usage _ false).2.2, msgsOf_map_msg,
+          filter_done_nonfinal _ _ (chatCallback_nonfinal parse tools cs [] 0 hnd)]
+        rfl
+    · simp only [ReportsOnce, oaCmplStreamV, ↓reduceIte, genStream, genChan, endItems]
+      rw [oaCmplStreamFixed_run usage _ m hm]
+      refine ⟨by simp, ?_, ?_⟩
+      · rw [List.filter_append, filter_isError_nil _ (oaCmplStream_no_error usage _)]
+        rfl
+      · rw [oaDones_append, (openai_cmpl_stream_equiv usage _).2, msgsOf_map_msg,
+          filter_done_nonfinal _ _ (genCallback_nonfinal raw pl cs [] hnd)]
+        rfl
+
+
+/-! ### F17a/b repaired (proposed_fixes/C17-F17ab.patch) -/
+
+/-- once the calls of the accumulated text were sent, empty chunks produce nothing until the done
+    chunk, whose message is empty -/
+theorem chatCallbackFixed_empty_tail (parse : Bytes → List Call) (init : List Chunk) (l : Chunk) (sb : Bytes)
+    (hnd : NoneDone init) (hl : l.done = true) (he : texts (init ++ [l]) = []) (hpos : 0 < (parse sb).length) :
+    chatCallbackFixed parse (init ++ [l]) sb (parse sb).length
+      = [{ content := [], calls := [], info := chunkInfo l }] := by
+  have hz : ((parse sb).length == 0) = false := by
+    cases h : (parse sb).length with
+    | zero => omega
+    | succ n => rfl
+  induction init with
+  | nil =>
+    have hc : l.content = [] := (texts_eq_nil_cons he).1
+    simp [chatCallbackFixed, hc, hl, hz]
+  | cons c cs ih =>
+    obtain ⟨hc, he'⟩ := texts_eq_nil_cons he
+    have hd : c.done = false := hnd c (by simp)
+    simp only [List.cons_append, chatCallbackFixed, hc, List.append_nil, hd, Nat.lt_irrefl, decide_false,
+      Bool.and_false, Bool.false_eq_true, ↓reduceIte]
+    exact ih (fun x hx => hnd x (by simp [hx])) he'
+
+theorem chatCallbackFixed_agg (parse : Bytes → List Call) (init : List Chunk) (l : Chunk)
+    (sb : Bytes) (hnd : NoneDone init) (hl : l.done = true)
+    (hg : ∀ k, k < (init ++ [l]).length → parse (sb ++ texts ((init ++ [l]).take (k + 1))) ≠ [] →
+      texts ((init ++ [l]).drop (k + 1)) = []) (d : ChatMsg) :
+    let ms := chatCallbackFixed parse (init ++ [l]) sb 0
+    let t := sb ++ texts (init ++ [l])
+    aggContent ms = (if (parse t).isEmpty then t else [])
+    ∧ aggCalls ms = setIdx 0 (parse t)
+    ∧ (lastOr d ms).info = chunkInfo l := by
+  induction init generalizing sb d with
+  | nil =>
+    simp only [List.nil_append, chatCallbackFixed, hl, texts_cons, texts_nil, List.append_nil]
+    by_cases h : (parse (sb ++ l.content)).isEmpty = true
+    · have h' : parse (sb ++ l.content) = [] := List.isEmpty_iff.mp h
+      simp [h', aggContent, aggCalls, setIdx]
+    · have hpos : 0 < (parse (sb ++ l.content)).length := by
+        cases hh : parse (sb ++ l.content) with
+        | nil => simp [hh] at h
+        | cons _ _ => simp
+      simp [h, hpos, aggContent, aggCalls]
+  | cons c cs ih =>
+    have hd : c.done = false := hnd c (by simp)
+    have hnd' : NoneDone cs := fun x hx => hnd x (by simp [hx])
+    by_cases h : (parse (sb ++ c.content)).isEmpty = true
+    · have h' : parse (sb ++ c.content) = [] := List.isEmpty_iff.mp h
+      have hg' : ∀ k, k < (cs ++ [l]).length → parse ((sb ++ c.content) ++ texts ((cs ++ [l]).take (k + 1))) ≠ [] →
+          texts ((cs ++ [l]).drop (k + 1)) = [] := by
+        intro k hk hne
+        have := hg (k + 1) (by simp at hk ⊢; omega) (by simpa [List.append_assoc] using hne)
+        simpa using this
+      have := ih (sb ++ c.content) hnd' hg' d
+      simp only [List.cons_append, chatCallbackFixed, h', hd, List.isEmpty_nil, Bool.not_true, Bool.false_and,
+        Bool.false_eq_true, ↓reduceIte]
+      simpa [List.append_assoc] using this
+    · have hne : parse (sb ++ c.content) ≠ [] := fun e => h (by simp [e])
+      have hpos : 0 < (parse (sb ++ c.content)).length := by
+        cases hh : parse (sb ++ c.content) with
+        | nil => exact absurd hh hne
+        | cons _ _ => simp
+      have hrest : texts (cs ++ [l]) = [] := by
+        have := hg 0 (by simp) (by simpa using hne)
+        simpa using this
+      have htail := chatCallbackFixed_empty_tail parse cs l (sb ++ c.content) hnd' hl hrest hpos
+      simp only [List.cons_append, chatCallbackFixed, h, Bool.not_false, hpos, decide_true, Bool.and_self,
+        ↓reduceIte, htail, texts_cons, hrest, List.append_nil]
+      simp [aggContent, aggCalls, h]
+
+/-- **F17a/b repaired**: with the patched handler, under the same protocol and guard as
+    `tools_equiv_partial`, the aggregated stream equals the `stream:false` reply INCLUDING the
+    `index` fields (and `parse [] = []` is no longer needed: the buffer is never reset). -/
+theorem tools_equiv_fixed (parse : Bytes → List Call) (init : List Chunk) (l : Chunk)
+    (hnd : NoneDone init) (hl : l.done = true)
+    (hg : ∀ k, k < (init ++ [l]).length → parse (texts ((init ++ [l]).take (k + 1))) ≠ [] →
+      texts ((init ++ [l]).drop (k + 1)) = []) :
+    ∃ o, chatOnceV true parse true (init ++ [l]) .ok = .ok o
+      ∧ aggContent (msgsOf (chatStreamV true parse true (init ++ [l]) .ok)) = o.content
+      ∧ aggCalls (msgsOf (chatStreamV true parse true (init ++ [l]) .ok)) = o.calls
+      ∧ (lastOr default (msgsOf (chatStreamV true parse true (init ++ [l]) .ok))).info = o.info := by
+  have hst : msgsOf (chatStreamV true parse true (init ++ [l]) .ok) = chatCallbackFixed parse (init ++ [l]) [] 0 := by
+    simp only [chatStreamV, Bool.and_self, ↓reduceIte]; exact msgsOf_chan _ _
+  obtain ⟨h1, h2, h3⟩ := chatCallbackFixed_agg parse init l [] hnd hl (by
+    intro k hk hne; exact hg k hk (by simpa using hne)) default
+  simp only [List.nil_append] at h1 h2 h3
+  rw [hst]
+  unfold chatOnceV
+  rw [chatOnce_ok_snoc]
+  by_cases hp : (parse (texts (init ++ [l]))).isEmpty = true
+  · have hp' : parse (texts (init ++ [l])) = [] := List.isEmpty_iff.mp hp
+    simp [h1, h2, h3, hp, hp', setIdx]
+  · simp [h1, h2, h3, hp]
+
 /-! ## Witnesses of the defects the model shares with the code (all checked by the kernel) -/
 
 def sA : Bytes := [97]      -- "a"
